@@ -73,6 +73,8 @@ def coq_item(s):
     if c == "N":
         p, d = b.split(":")
         return "IUseName %s %s" % (p, d)
+    if c == "K":
+        return "IUseCtx %s" % b
     if c == "S":
         i, d, u = b.split(":")
         if u[0] == "v":
@@ -104,7 +106,7 @@ def coq_program(line):
     us = []
     for u in line.split("|"):
         f = u.split(",")
-        kd = "UPrimary" if f[1] in ("P", "E") else "(USecondary %s)" % f[1][1:]
+        kd = "UPrimary" if f[1] in ("P", "E", "C") else "(USecondary %s)" % f[1][1:]
         ctx = "; ".join(coq_item(x) for x in f[2].split(" ") if x)
         body = "; ".join(coq_item(x) for x in f[3].split(" ") if x)
         us.append("mkUnit %s %s [%s] [%s]" % (f[0], kd, ctx, body))
@@ -219,6 +221,15 @@ class Cmp:
                     res.count_case(c, False)
                     continue
                 pc = parse_case(c)
+                for tok, name in (("Oc", "case_generates"), ("Ow", "case_generate_further_alternatives"), ("Oi", "if_generates"),
+                                  ("Oe", "if_generate_elsif_branches"), ("Ol", "if_generate_else_branches"), ("Of", "for_generates"),
+                                  (",C,", "context_declarations")):
+                    k = c.count(" " + tok + " ") + c.count("," + tok + " ") if tok[0] == "O" else c.count(tok)
+                    if k:
+                        self.bump(name, k)
+                k = len(re.findall(r"(?:^|[ ,])K\d+", c))
+                if k:
+                    self.bump("context_references", k)
                 isites, _, extra = i.partition(";")
                 if "PANIC" in extra:
                     self.report("analysis panicked on a program of the family", c, None, {"impl": i})
@@ -357,7 +368,7 @@ def main(tier, replay=None):
         sampled += stream("replay", "file:" + path, 0, 1)
     else:
         corpus = os.path.join(VERIF, "corpus", "C07.cases")
-        if os.path.exists(corpus):
+        if os.path.exists(corpus) and not os.environ.get("C07_NO_CORPUS"):  # (the variable is a debugging aid only)
             sampled += stream("corpus", "file:" + corpus, 0, 1)
         if tier == "thorough":
             sampled += stream("random", "random", 16000, 800)
@@ -377,7 +388,11 @@ def main(tier, replay=None):
     res.coverage["rule"] = (
         "corpus of hand-written cases first (F21/F22 inputs, 3-deep nesting, homograph pair, overloaded literals over two "
         "enumeration types); then generated programs: 2-4 packages (+ bodies) in 1-3 libraries, 1-2 entity/architecture pairs, "
-        "regions nested package / package body / entity / architecture / block / process / subprogram (quick <= 4 deep, "
+        "0-2 context declarations (library/use clauses, possibly a nested context reference) referenced with `context l.c;` at "
+        "every position among the by-name and .all use clauses of later units (often next to a by-name use clause of a designator "
+        "the context also brings); regions nested package / package body / entity / architecture / block / process / subprogram / "
+        "if-generate branches (if, elsif, else) / case-generate alternatives / for generate (its parameter is a declaration) - "
+        "sibling regions declare homographs of outer names and of each other (quick <= 4 deep, "
         "'deep' stream <= 6), declarations = constants and parameters (non-overloadable), one-parameter functions and unary "
         "operators \"-\" \"+\" (overloadable), enumeration literals incl. character literals, enumeration and integer types; "
         "identifiers drawn from 4 value names and 3 type names so that homographs are frequent; use clauses `use l.p.all` / "
